@@ -424,6 +424,17 @@ def check_on_geo1(
             f"'sensors coordinates' shape is {file_dict['sensors coordinates'].values.shape} while 'sensors directions' shape is {file_dict['sensors directions'].values.shape}"
         )
 
+    # Check 'sensors lines' shape
+    if (
+        file_dict.get("sensors lines") is not None
+        and not file_dict["sensors lines"].empty
+        and file_dict["sensors lines"].values.shape[1] != 2
+    ):
+        raise ValueError(
+            "'sensors lines' should have 2 columns for the starting and ending sensor of the line."
+            f"'sensors lines' have {file_dict['sensors lines'].values.shape[1]} columns"
+        )
+
     # Check 'BG nodes' shape
     if (
         file_dict.get("BG nodes") is not None
@@ -626,6 +637,17 @@ def check_on_geo2(
         raise ValueError(
             "'points coordinates' and 'sensors sign' must have the same shape.\n"
             f"'points coordinates' shape is {file_dict['points coordinates'].values.shape} while 'sensors sign' shape is {file_dict['sensors sign'].values.shape}"
+        )
+
+    # Check 'sensors lines' shape
+    if (
+        file_dict.get("sensors lines") is not None
+        and not file_dict["sensors lines"].empty
+        and file_dict["sensors lines"].values.shape[1] != 2
+    ):
+        raise ValueError(
+            "'sensors lines' should have 2 columns for the starting and ending sensor of the line."
+            f"'sensors lines' have {file_dict['sensors lines'].values.shape[1]} columns"
         )
 
     # Check 'BG nodes' shape
